@@ -213,6 +213,12 @@ func c06pApply(t *gorm.DB, o c06pOp, base int) *gorm.DB {
 			return t.Select(tb+".id", tb+".name")
 		}
 		return t.Select(tb+".id", tb+".user_id", tb+".name")
+	case "mapcols": // a renamed result column reaches its field only through Statement.ColumnMapping
+		tb := c06pTable(base)
+		if base == 0 {
+			return t.Select(tb+".id", tb+".name AS nm").MapColumns(map[string]string{"nm": "name"})
+		}
+		return t.Select(tb+".id", tb+".user_id", tb+".name AS nm").MapColumns(map[string]string{"nm": "name"})
 	case "set":
 		return t.Set(fmt.Sprint("c06p:k", o.N%2), o.N)
 	case "iset":
@@ -570,7 +576,7 @@ func c06pGenArgs(rng *rand.Rand) []c06pArg {
 
 func c06pGenOps(rng *rand.Rand, n int, base int, pPre int) []c06pOp {
 	var ops []c06pOp
-	kinds := []string{"where", "where", "or", "not", "scope", "order", "limit", "unscoped", "joinrel", "joinraw", "select2", "set", "iset", "model"}
+	kinds := []string{"where", "where", "or", "not", "scope", "order", "limit", "unscoped", "joinrel", "joinraw", "select2", "set", "iset", "model", "mapcols"}
 	for i := 0; i < n; i++ {
 		if rng.Intn(100) < pPre {
 			o := c06pOp{K: "preload", Rel: c06pRels[base][rng.Intn(len(c06pRels[base]))], Args: c06pGenArgs(rng)}
@@ -1678,36 +1684,43 @@ func c06qAtoms(vals []interface{}, base int) []int {
 	return out
 }
 
-func c06qReal(w *c06aWorld, c c06qCase) (before, after []int, note string) {
+func c06qStr(v interface{}) string {
+	if _, ok := v.(func(*gorm.DB) *gorm.DB); ok {
+		return "fn"
+	}
+	return fmt.Sprintf("%T:%v", v, v)
+}
+
+// an atom of the model's answer spelled as the value it stands for
+func c06qSpell(atom int, args, assoc []interface{}) string {
+	switch {
+	case atom == 0:
+		return "fn"
+	case atom > 1000 && (atom-1001)/2 < len(assoc):
+		return c06qStr(assoc[(atom-1001)/2])
+	case atom < 1000 && (atom-1)/2 < len(args):
+		return c06qStr(args[(atom-1)/2])
+	}
+	return fmt.Sprint("?", atom)
+}
+
+func c06qReal(w *c06aWorld, c c06qCase) (before, after []string, note string) {
 	defer func() {
 		if p := recover(); p != nil {
 			note = "panic:" + c06HexRe.ReplaceAllString(fmt.Sprint(p), "PTR")
 		}
 	}()
 	args := c06pArgs(c.Args, c.Spare)
-	orig := append([]interface{}(nil), args...)
-	atoms := c06qAtoms(orig, 0)
 	root := c06zOpen(w, 0, false)
 	t := root.Model(&C06AUser{}).Preload("Pets", args...)
 	if len(c.Assoc) > 0 {
 		t = t.Preload(clause.Associations, c06pArgs(c.Assoc, 0)...)
 	}
 	h := t.Session(&gorm.Session{})
-	ids := func() []int {
-		var out []int
+	ids := func() []string {
+		out := []string{}
 		for _, v := range h.Statement.Preloads["Pets"] {
-			if _, ok := v.(func(*gorm.DB) *gorm.DB); ok {
-				out = append(out, 0)
-				continue
-			}
-			id := -1
-			for i, o := range orig {
-				if atoms[i] != 0 && fmt.Sprintf("%T:%v", o, o) == fmt.Sprintf("%T:%v", v, v) {
-					id = atoms[i]
-					break
-				}
-			}
-			out = append(out, id)
+			out = append(out, c06qStr(v))
 		}
 		return out
 	}
@@ -1732,7 +1745,7 @@ func c06qSuite(r *Result, rng *rand.Rand, rounds int) {
 	defer w.close()
 	var cases []c06qCase
 	var ops [][]interface{}
-	var reals [][]int
+	var reals [][]string
 	for i := 0; i < rounds; i++ {
 		c := c06qCase{Args: c06pGenArgs(rng), Fin: rng.Intn(3)}
 		if rng.Intn(3) == 0 {
@@ -1748,10 +1761,7 @@ func c06qSuite(r *Result, rng *rand.Rand, rounds int) {
 		}
 		atoms := c06qAtoms(c06pArgs(c.Args, 0), 0)
 		assoc := c06qAtoms(c06pArgs(c.Assoc, 0), 1000)
-		if fmt.Sprint(before) != fmt.Sprint(atoms) && len(atoms) > 0 {
-			r.Violate(Violation{Kind: "correspondence", Suite: "preconds", Input: c, Observed: before, Expected: atoms, Note: "harness: the handle's Preloads[Pets] is not what Preload was given"})
-			return
-		}
+		_ = before
 		cases = append(cases, c)
 		reals = append(reals, after)
 		ops = append(ops, []interface{}{"c06.preconds", atoms, c.Spare, assoc})
@@ -1785,12 +1795,13 @@ func c06qSuite(r *Result, rng *rand.Rand, rounds int) {
 		}
 		r.CorrCompared++
 		r.Case("preconds", canon(cases[i]), len(cases[i].Args) >= 2)
-		if len(reals[i]) == 0 && len(m.After) == 0 {
-			continue
+		spelled := []string{}
+		for _, a := range m.After {
+			spelled = append(spelled, c06qSpell(a, c06pArgs(cases[i].Args, 0), c06pArgs(cases[i].Assoc, 0)))
 		}
-		if fmt.Sprint(m.After) != fmt.Sprint(reals[i]) {
-			r.Violate(Violation{Kind: "correspondence", Suite: "preconds", Input: cases[i], Observed: reals[i], Expected: m.After,
-				Note: fmt.Sprintf("the handle's Statement.Preloads[\"Pets\"] after one derived chain ran its preload (0 = scope function, odd = argument by position) differs from Model/PreloadConds.lean argsAfter (regenerated discipline prefixInit=%v)", m.PrefixInit)})
+		if fmt.Sprint(spelled) != fmt.Sprint(reals[i]) {
+			r.Violate(Violation{Kind: "correspondence", Suite: "preconds", Input: cases[i], Observed: reals[i], Expected: spelled,
+				Note: fmt.Sprintf("the handle's Statement.Preloads[\"Pets\"] after one derived chain ran its preload differs from Model/PreloadConds.lean argsAfter (regenerated discipline prefixInit=%v)", m.PrefixInit)})
 			return
 		}
 	}
@@ -1834,7 +1845,7 @@ func init() {
 		before, after, note := c06qReal(w, c)
 		if fmt.Sprint(before) != fmt.Sprint(after) {
 			r.Violate(Violation{Kind: "e2e", Suite: "preconds", Input: c, Observed: after, Expected: before,
-				Note: "executing ONE chain derived from a handle changed the handle's Preload arguments (0 = scope function, odd = argument by position) " + note})
+				Note: "executing ONE chain derived from a handle changed the handle's Preload arguments " + note})
 		}
 	}
 	replayers["C06/mid"] = func(r *Result, input json.RawMessage) {
